@@ -316,7 +316,16 @@ def check_program(ctx, prog, built, insns, inputs_list, replaying=False):
                 break
             regs2, vb2 = res
             if not inside:
-                status.append("outside")
+                # no claim about the destination's value; the frame condition is still checked
+                cls = first_class(pcls, set())
+                changed = [f"r{k}" for k in sorted(owned) if k != 10 and not (dest[0] != "v" and dest[1] == k)
+                           and regs2.get(k) != regs.get(k)]
+                changed += [n for n in varbytes if not (dest[0] == "v" and dest[1] == n) and vb2[n] != varbytes[n]]
+                okf = ctx.require(not changed, "another owned register or declared variable changed", case,
+                                  "changed=" + ",".join(changed), cls)
+                status.append("outside" if okf else "fail:" + str(cls))
+                if not okf:
+                    break
             else:
                 icls = input_classes(E, built.objs[i], regview, varat)
                 cls = first_class(pcls, icls)
